@@ -24,11 +24,17 @@ Proved here, for ALL admissible histories of any length:
 * every event an entry emits is the transition of what it reports for one object — Created when the object
   enters, Destroyed (with the cookie it had) when it leaves, nothing otherwise — and no other object's
   report changes in that step (`events_are_transitions`).
-Partial: the lifetime / wait-for-object clauses (`aldrin/src/lifetime.rs`, `Handle::wait_for_object`) are not
-modelled; that the bus listener delivers exactly the admissible history (filters, current enumeration on
+* lifetimes (`Model/Lifetime.lean`: the loop of `Lifetime::poll_ended` as a fold over the events of its listener,
+  the history of the scope's UUID on the bus as creations with fresh cookies and destructions): for EVERY history
+  and every point of it at which the lifetime is bound — to the living id, an id of the past, or one that never
+  existed — once the events so far are handled the lifetime has ended iff its scope does not live
+  (`lifetime_ended_iff_scope_gone`; since it holds for every prefix, it never ends while the scope lives).
+Partial: `Handle::find_object` / `wait_for_object` are one-shot uses of a discoverer and are checked by an oracle on the
+real code only; that the bus listener delivers exactly the admissible history (filters, current enumeration on
 (re)start, stop draining) is tied by the correspondence runs against a real broker and client, not proved.
 -/
 import Aldrin.Lemmas.Discoverer
+import Aldrin.Lemmas.Lifetime
 
 namespace Aldrin.Disc
 open Aldrin.Broker
@@ -59,6 +65,22 @@ theorem any_entry_view {k : Nat} {svcs : List (Uuid × List (Uuid × Cookie))} {
     (h : Rel (.any k svcs created) b) (ou : Uuid) :
     (Entry.any k svcs created).reports ou = (if hasAll svcs b ou then AL.find? ou b.objs else none) ∧
     ∀ s m, AL.find? s svcs = some m → AL.find? ou m = (AL.find? (ou, s) b.svcs).map (·.2) := any_reports h ou
+
+/-- A bound lifetime resolves iff its scope has ended or never existed: `pre` is what happened to the scope's UUID
+before the lifetime was bound, `post` what has happened since; `t` is the cookie the lifetime is bound to. -/
+theorem lifetime_ended_iff_scope_gone (t : Nat) (pre post : List Lifetime.BOp) (b1 b2 : Lifetime.Bus)
+    (h1 : ({} : Lifetime.Bus).run pre = some b1) (h2 : b1.run post = some b2) (ht : t ∈ b1.used ∨ t ∉ b2.used) :
+    (Lifetime.run t {} (Lifetime.currentEvents b1 ++ Lifetime.eventsFrom b1 post)).ended = true ↔ b2.alive ≠ some t :=
+  Lifetime.ended_iff_scope_gone t pre post b1 b2 h1 h2 ht
+
+/-! non-vacuity: a scope that lives when the lifetime is bound and ends later; one of the past; one re-created -/
+example : (({} : Lifetime.Bus).run [.create 1]).bind (fun b1 => (b1.run [.destroy, .create 2]).map (fun b2 =>
+    ((Lifetime.run 1 {} (Lifetime.currentEvents b1 ++ Lifetime.eventsFrom b1 [.destroy, .create 2])).ended, b2.alive))) =
+    some (true, some 2) := by decide
+example : (({} : Lifetime.Bus).run [.create 1]).map (fun b1 =>
+    (Lifetime.run 1 {} (Lifetime.currentEvents b1 ++ Lifetime.eventsFrom b1 [])).ended) = some false := by decide
+example : (({} : Lifetime.Bus).run [.create 1, .destroy, .create 2]).map (fun b1 =>
+    (Lifetime.run 1 {} (Lifetime.currentEvents b1 ++ Lifetime.eventsFrom b1 [])).ended) = some true := by decide
 
 /-! non-vacuity: object 1 gets services 5 and 6, is re-created under a new cookie with only service 5 -/
 example : (match (Entry.mkAny 0 [5, 6]).run [.objCreated ⟨1, 10⟩, .svcCreated ⟨⟨1, 10⟩, 5, 11⟩, .svcCreated ⟨⟨1, 10⟩, 6, 12⟩,
